@@ -42,6 +42,7 @@ func writeEvidence(p *Prop, tier string, seed int64, total *ShardResult, perPass
 		"counters":            total.Counters,
 		"distinct_sets":       sets,
 		"passes":              passes,
+		"violation_keys":      total.KeyHist,
 		"race_reports":        races,
 		"race_report_texts":   raceTexts,
 		"known_findings_seen": known,
